@@ -1,12 +1,15 @@
 #!/usr/bin/env python3
 """Prints the markdown table of seeded changes and which check caught them (from seeded/*/meta.json)."""
 import json, glob, os
+import re
+def clean(x):
+    return re.sub(r"[\x00-\x08\x0b\x0c\x0e-\x1f\x7f]", "?", x)
 rows = []
 for f in sorted(glob.glob("/verif/seeded/*/meta.json")):
     m = json.load(open(f)); n = os.path.basename(os.path.dirname(f))
     det = m.get("detected_by", {})
     cell = "; ".join("%s: %s" % (k, ("caught (%s)" % (v.get("first_signatures") or ["?"])[0][:70]) if v.get("detected") else "MISSED") for k, v in sorted(det.items())) or "not run"
-    rows.append("| %s | %s | %s | %s |" % (n, m["property"], m["needs_to_manifest"].replace("|", "/"), cell.replace("|", "/")))
+    rows.append(clean("| %s | %s | %s | %s |" % (n, m["property"], m["needs_to_manifest"].replace("|", "/"), cell.replace("|", "/"))))
 print("| seeded change | property | needs, in order to manifest | result |\n|---|---|---|---|")
 print("\n".join(rows))
 
